@@ -17,6 +17,27 @@
 //     http.ResponseWriter lets a handler set a declared trailer's value after the body.
 //   - the connection kind (with / without a Sendfile method, as *nbio.Conn vs. *net.TCPConn / TLS)
 //     is a dimension of the programs that read from a file.
+//   - the ReadFrom alphabet has, besides "the rest of the file" and "100 bytes of it", the general
+//     file segment OpRFX = ReadFrom(&io.LimitedReader{R: file, N: n}) after Seek(off) (io.CopyN of a
+//     byte range): n in {0, 1, what is left of the file, that + 1, more than the whole file} x off in
+//     {0, middle, end of file} x connection {with Sendfile, without} (thorough: + Sendfile disabled),
+//     under a declared Content-Length that the segment completes or not (the rest is then written by
+//     a "fill" Write). The body is then no longer a prefix of the pattern; the model keeps the list
+//     of pattern spans. Quick tier: the whole family where a positive Content-Length is declared (the
+//     only situation in which nbio may take the sendfile path), the reduced family {0, 1, beyond the
+//     end} on a connection without Sendfile, the empty segment elsewhere; a displaced segment is
+//     only completed (fill, Flush), not expanded further. Thorough: everything everywhere.
+//   - programs that read from a file are, on the two keep-alive request versions, followed by a
+//     second pipelined request on the same connection whose handler answers a fixed response: what
+//     the first response puts on the wire beyond its framing is seen in front of the second one.
+//   - the allocator is a dimension: the BFS itself runs under the tracking allocator with pooled
+//     capacities (buffers grow in place, like the stock pool); every program that is clean there is
+//     run again under mempool.NewAligned() (a growing Append returns a NEW handle and frees the old
+//     one), under the tracking allocator with exact capacities + MoveOnGrow (every growing
+//     Append/Realloc relocates and poisons the old buffer) and under mempool.NewSTD(), and judged by
+//     the same oracle. Quick tier: one history per distinct (implementation, model) state pair - the
+//     programs that are new states - for the two moving allocators, those of length <= 3 for NewSTD;
+//     thorough: every program under every allocator.
 //   - levels 1..2 of the BFS are computed by every worker (global visited set); each level-2
 //     state is the root of a sub-tree owned by one worker, whose visited set is seeded with the
 //     global one. "states" therefore counts distinct (implementation, model) state pairs per
@@ -47,7 +68,9 @@ func main() {
 	vkit.Main(&vkit.Spec{
 		Property: "C09", Level: "model_checking",
 		Rule: "every handler program over the operation alphabet {Header().Set(Content-Length | Content-Type | Trailer | Trailer+value | trailer value | Transfer-Encoding: chunked), " +
-			"WriteHeader(200|204|404), Write, WriteString, Flush, ReadFrom(bytes.Reader | *os.File | io.LimitedReader{*os.File})} up to length 4 (quick) / 5 (thorough), " +
+			"WriteHeader(200|204|404), Write, WriteString, Flush, ReadFrom(bytes.Reader | *os.File | io.LimitedReader{*os.File, N} after Seek(off) with N in {0,1,100,left,left+1,file+1000} x off in {0,middle,EOF} x conn {Sendfile, no Sendfile})} up to length 4 (quick) / 5 (thorough), " +
+			"programs with a file operation being followed by a pipelined second request on the keep-alive versions, " +
+			"each program that is clean under the explorer's allocator (track, pooled capacities) run again under mempool.NewAligned(), track+MoveOnGrow and mempool.NewSTD() (quick: the programs that are new states; NewSTD up to length 3), " +
 			"for the request versions HTTP/1.0, HTTP/1.0+keep-alive, HTTP/1.1, HTTP/1.1+close, is executed through Parser.Parse -> ServerProcessor.OnComplete -> handler -> flushResponse; " +
 			"write sizes are {0,1,100,70000,131072}, the rest of a declared Content-Length, and sizes computed from a probe run of the same history so that the measured internal buffer " +
 			"(pending bytes + framing + data) lands on 65534/65535/65536/65537; BFS states are deduplicated on a canonical dump of the Response's private fields + wire so far + model state. " +
@@ -63,6 +86,9 @@ func main() {
 			"Flush is a legitimate operation on every request version: the complete wire must still decode to the written body",
 			"header operations other than Content-Length and the trailer value are only offered before body data is committed; Content-Length is declared at most once per program (alphabet bound)",
 			"request method is always GET (HEAD responses are not in the quantifier)",
+			"a ReadFrom that contributes no bytes (limit 0, file at its end) is like an empty Write: the status and the headers may or may not be committed by it",
+			"the connection's Sendfile (harness double of (*nbio.Conn).Sendfile) sends 'remain' bytes from the file's offset, everything up to the end of the file when remain <= 0 or beyond it - the documented contract of nbio.Conn.Sendfile, which C09 does not verify",
+			"allocator dimension: only failures of a program that is clean under the explorer's own allocator are reported there (with the allocator in the signature); a program whose proper prefix already fails under that allocator is not reported again",
 		},
 		Seq: run, ReplaySeq: replay, MinNonTrivial: 1000,
 	})
